@@ -548,9 +548,8 @@ def popPos (n : Nat) (i : Int) : Option Nat :=
   let j := if i < 0 then i + n else i
   if j < 0 ∨ j ≥ n then none else some j.toNat
 
-/-- result of the operation on an object of kind `k` with fields `fs`; an exception leaves the
-object unchanged. -/
-def FOp.apply (op : FOp) (k : Kind) (fs : Fields) : Except Exc Fields :=
+/-- the operation on a container that supports it. -/
+def FOp.applyCore (op : FOp) (k : Kind) (fs : Fields) : Except Exc Fields :=
   match op with
   | .set key v =>
     match k with
@@ -576,6 +575,18 @@ def FOp.apply (op : FOp) (k : Kind) (fs : Fields) : Except Exc Fields :=
     | none => .error .indexError
   | .reverse => .ok (Fields.ofList fs.toList.reverse)
   | .clear => .ok .nil
+
+/-- is the operation an attribute assignment (the only in-place operation a `Regions` OBJECT
+supports: the class defines no `__setitem__`, `__delitem__`, `__iadd__`; its `append`, `extend`,
+`insert`, `pop`, `reverse` are operations on its `regions` list). -/
+def FOp.isSetAttr : FOp → Bool
+  | .set _ _ => true
+  | _ => false
+
+/-- result of the operation on an object of kind `k` with fields `fs`; an exception leaves the
+object unchanged.  `regs[i] = r`, `del regs[i]`, `regs += …` on a `Regions` object: `TypeError`. -/
+def FOp.apply (op : FOp) (k : Kind) (fs : Fields) : Except Exc Fields :=
+  if k = .regions ∧ op.isSetAttr = false then .error .typeError else op.applyCore k fs
 
 /-- total version used for the heap write (an exception = no change). -/
 def FOp.applyD (op : FOp) (k : Kind) (fs : Fields) : Fields :=
